@@ -122,6 +122,61 @@ class _Writer:
         return False
 
 
+class _TextWriter:
+    """open(path, 'w' / 'a') in text mode: what is written goes, encoded,
+    through a _Writer (so appends and rewrites of text files - csv tables -
+    are operations like any other)."""
+
+    def __init__(self, raw, encoding=None, newline=None):
+        self._raw = raw
+        self.name = raw.name
+        self.mode = raw.mode.replace("b", "")
+        self.encoding = encoding or "utf-8"
+        self._newline = newline
+
+    def write(self, text):
+        if self._newline is None:
+            text = text.replace("\n", os.linesep)
+        self._raw.write(text.encode(self.encoding))
+        return len(text)
+
+    def writelines(self, lines):
+        for ln in lines:
+            self.write(ln)
+
+    def flush(self):
+        pass
+
+    def close(self):
+        self._raw.close()
+
+    @property
+    def closed(self):
+        return self._raw.closed
+
+    def fileno(self):
+        return self._raw.fileno()
+
+    def writable(self):
+        return True
+
+    def readable(self):
+        return False
+
+    def seekable(self):
+        return False
+
+    def tell(self):
+        return self._raw.tell()
+
+    def __enter__(self):
+        return self
+
+    def __exit__(self, *exc):
+        self.close()
+        return False
+
+
 class _Reader(io.BytesIO):
     """open(path, 'rb'): existence is decided at open, content at first
     read (two yield points: open-r, read)."""
@@ -226,7 +281,15 @@ class Interceptor:
         adaptor.writers = []
 
         def x_open(file, mode="r", *a, **k):
-            if "w" in mode and "b" in mode and me._under(file) is not None:
+            if ("w" in mode or "a" in mode) and "b" not in mode and \
+                    "+" not in mode and isinstance(file, (str, os.PathLike)) \
+                    and me._under(file) is not None:
+                return _TextWriter(
+                    _Writer(adaptor, os.path.abspath(os.fspath(file)),
+                            mode.replace("t", "") + "b"),
+                    k.get("encoding"), k.get("newline", None))
+            if ("w" in mode or "a" in mode) and "b" in mode and \
+                    "+" not in mode and me._under(file) is not None:
                 # every binary writer under the root is wrapped: whether its
                 # operations are yield points is decided by the name the file
                 # has at that moment (a rename can make it visible)
